@@ -1557,6 +1557,12 @@ impl<'a> Visitor<'a, '_, Error> for JSONValidator<'a> {
           {
             return self.visit_type2(controller);
           }
+
+          // Any other named target (bool, nil, a rule of the document): the
+          // value is an instance of the target and equals the controller's
+          // value (RFC 8610 3.8.6)
+          self.visit_type2(target)?;
+          return self.visit_type2(controller);
         }
         Type2::Array { .. } => {
           if let Value::Array(_) = &self.json {
@@ -1589,6 +1595,20 @@ impl<'a> Visitor<'a, '_, Error> for JSONValidator<'a> {
             self.state.ctrl = None;
             return Ok(());
           }
+
+          // Any other named target: the value is an instance of the target
+          // and differs from the controller's value
+          self.visit_type2(target)?;
+          let mut probe = self.clone();
+          probe.errors.clear();
+          probe.visit_type2(controller)?;
+          if probe.errors.is_empty() {
+            self.add_error(format!(
+              "expected {} .ne to {}, got {}",
+              target, controller, self.json
+            ));
+          }
+          return Ok(());
         }
         Type2::Array { .. } => {
           if let Value::Array(_) = &self.json {
